@@ -14,4 +14,5 @@ python3 tools/mutrun.py --scratch /root/scratch/mutall \
  $M/m17b-ignore-regen-failure.diff:C17 $M/m18a-default-ignored.diff:C18 $M/m18b-closure-skips-validation.diff:C18 $M/m18c-unknown-target-skipped.diff:C18 \
  $M/m19a-count-phony.diff:C19 $M/m19b-count-failures.diff:C19 \
  $M/unfix-F1.diff:C12 $M/unfix-F3.diff:C12 $M/unfix-F4.diff:C12 $M/unfix-F5.diff:C20 $M/unfix-F6.diff:C07 $M/unfix-F11.diff:C09 $M/unfix-F12.diff:C14 \
- $M/unfix-F13.diff:C09 $M/unfix-F14.diff:C15 $M/unfix-F15.diff:C08 $M/unfix-F16.diff:C12 $M/unfix-F17.diff:C12 "$@"
+ $M/unfix-F13.diff:C09 $M/unfix-F14.diff:C15 $M/unfix-F15.diff:C08 $M/unfix-F16.diff:C12 $M/unfix-F17.diff:C12 $M/unfix-F18.diff:C06 \
+ $M/m27-counts-shadowed-build-saturating.diff:C19 $M/m28-waiting-counted-as-ready.diff:C19 "$@"
